@@ -201,6 +201,20 @@ def evaluate(case):
             s = 0 if cm is None else int(cm.to_numpy().sum())
             if s != n_paired:
                 return f"confusion matrix sums to {s}, paired rows: {n_paired}", seen
+            # an analysis restricted to a distance range reads the stored frames: they, and a later unrestricted analysis, stay as they were
+            stored = [f for fl in an.frame_results.values() for f in fl] if isinstance(an.frame_results, dict) else list(an.frame_results)
+            snap = lambda: [(len(f.pass_fail_result.tp_object_results), len(f.pass_fail_result.fp_object_results), len(f.pass_fail_result.fn_objects),
+                             len(f.pass_fail_result.tn_objects), len(f.object_results), len(f.frame_ground_truth.objects)) for f in stored]
+            before, counts0 = snap(), (an.num_tp, an.num_fp, an.num_fn)
+            for rng_ in (((0.0, 6.0), (4.0, 30.0)) if case.get("distance_ranges", True) else ()):
+                try:
+                    an.summarize_score(distance=rng_)
+                except Exception as ex:
+                    return f"summarize_score(distance={rng_}) raised {type(ex).__name__}: {ex}", seen
+                if snap() != before:
+                    return f"summarize_score(distance={rng_}) changed the stored frame results: {before} -> {snap()}", seen
+            if (an.num_tp, an.num_fp, an.num_fn) != counts0:
+                return "a distance-restricted analysis changed the table's counts", seen
         return None, seen
     finally:
         shutil.rmtree(root, ignore_errors=True)
@@ -233,6 +247,7 @@ def rand_case(rng):
             scene.append(f)
         scenes.append(scene)
     case = dict(scenes=scenes, ego=use_map, ndiv=rng.choice([1, 3, 9]), crit=dict(max_x_position_list=[10.0] * 4, max_y_position_list=[10.0] * 4), pass_thr=[1.0] * 4)
+    case["distance_ranges"] = rng.random() < 0.25       # the distance-restricted analyses deep-copy every frame: run them on a quarter of the cases
     if rng.random() < 0.3:
         # false-positive validation: every ground truth is an FP-labelled region
         case["task"] = "fp_validation"
